@@ -6,6 +6,32 @@ spec/TractParseTrace.tla  whole = concatenation of the elements parsed alone, lo
 from .. import core
 
 CHAINS = ["NE/4", "N/2SW/4", "S/2N/2", "W/2", "SE/4NW/4", "N½NE¼", "E/2SE/4", "NW/4"]
+# chains with their abstract reading (components in text order, as in spec/Aliquot.tla): what such an element yields on
+# its own is judged by the aliquot specification, not by asking the library a second time
+CHAIN_ABS = {"NE/4": ["NE"], "N/2SW/4": ["N", "SW"], "S/2N/2": ["S", "N"], "W/2": ["W"], "SE/4NW/4": ["SE", "NW"],
+             "N½NE¼": ["N", "NE"], "E/2SE/4": ["E", "SE"], "NW/4": ["NW"],
+             "N/2NE/4NE/4": ["N", "NE", "NE"], "NE/4NE/4NE/4": ["NE", "NE", "NE"], "S/2N/2NW/4SW/4": ["S", "N", "NW", "SW"],
+             "W½SE¼SW¼": ["W", "SE", "SW"], "E/2W/2NE/4": ["E", "W", "NE"], "SW/4SE/4NW/4": ["SW", "SE", "NW"],
+             "N/2S/2SE/4NE/4": ["N", "S", "SE", "NE"]}
+DEEP_CHAINS = [c for c in CHAIN_ABS if len(CHAIN_ABS[c]) >= 3]
+CFGX = [None, None, None, "qq_depth.1", "qq_depth.3", "qq_depth_min.1,qq_depth_max.2", "break_halves", "qq_depth_min.3,break_halves",
+        "qq_depth_max.3,break_halves", "qq_depth_max.4,break_halves", "qq_depth_max.3", "qq_depth_min.1,break_halves"]
+
+
+def depth_settings(cfgx):
+    """(dmin, dmax, bh) of a depth configuration text, in the terms of spec/Aliquot.tla (dmax 0: none)."""
+    dmin, dmax, bh = 2, 0, False
+    for item in (cfgx or "").split(","):
+        k, _, v = item.partition(".")
+        if k == "qq_depth":
+            dmin = dmax = int(v)
+        elif k == "qq_depth_min":
+            dmin = int(v)
+        elif k == "qq_depth_max":
+            dmax = int(v)
+        elif k == "break_halves":
+            bh = True
+    return dmin, dmax, bh
 HALVES = [("N/2", "N2"), ("S½", "S2"), ("E/2", "E2"), ("NE/4", "NE"), ("W/2NW/4", "W2NW"), ("North Half", "N2")]
 SEP = {"COMMA": ", ", "SEMI": "; ", "NL": "\n"}
 KINDS = ["LOT", "LOTS_THRU", "LOTS_AND", "LOTAC", "DIV", "ALQ", "ALL"]
@@ -19,14 +45,17 @@ def _lotnum(rng):
 def render_element(kind, rng, used_acre_lots):
     if kind == "LOT":
         w = rng.choice(LOTW)
-        return {"kind": kind, "text": "%s%s%d" % (w, rng.choice([" ", " ", ""]) if w != "Lt" else " ", _lotnum(rng))}
+        n = _lotnum(rng)
+        return {"kind": kind, "text": "%s%s%d" % (w, rng.choice([" ", " ", ""]) if w != "Lt" else " ", n), "want_lots": [n]}
     if kind == "LOTS_THRU":
         a = _lotnum(rng)
+        b = a + rng.randint(1, 3)
         return {"kind": kind, "text": "%s %d%s%d" % (rng.choice(["Lots", "Lots", "Lts", "L"]), a,
-                                                    rng.choice([" - ", "-", " through ", " thru ", " to ", " – "]),
-                                                    a + rng.randint(1, 3))}
+                                                    rng.choice([" - ", "-", " through ", " thru ", " to ", " – "]), b),
+                "want_lots": list(range(a, b + 1))}
     if kind == "LOTS_AND":
-        return {"kind": kind, "text": "Lots %d%s%d" % (_lotnum(rng), rng.choice([" and ", ", ", " & "]), _lotnum(rng))}
+        a, b = _lotnum(rng), _lotnum(rng)
+        return {"kind": kind, "text": "Lots %d%s%d" % (a, rng.choice([" and ", ", ", " & "]), b), "want_lots": [a, b]}
     if kind == "LOTAC":
         n = _lotnum(rng)
         # acreages as they are written: two decimals, one, four, or none; tight against the number or after a blank
@@ -35,7 +64,8 @@ def render_element(kind, rng, used_acre_lots):
                          # (small, zero and large stated acreages: the statement is attributed whatever it says)
                          rng.choice(["0.00", "0", "0.0", ".50", "0.25", "160.00", "640"])])
         br = rng.choice(["()", "[]"])
-        el = {"kind": kind, "text": "Lot %d%s%s%s%s" % (n, rng.choice([" ", " ", ""]), br[0], ac, br[1]), "lot": "L%d" % n, "ac": ac}
+        el = {"kind": kind, "text": "Lot %d%s%s%s%s" % (n, rng.choice([" ", " ", ""]), br[0], ac, br[1]), "lot": "L%d" % n, "ac": ac,
+              "want_lots": [n]}
         return el
     if kind == "DIV":
         txt, pre = rng.choice(HALVES)
@@ -43,14 +73,15 @@ def render_element(kind, rng, used_acre_lots):
         conn = rng.choice([" of ", " of ", " "])
         form = rng.random()
         if form < 0.5:
-            lots, n = "Lots %d and %d" % (a, a + 1), 2
+            lots, n, want = "Lots %d and %d" % (a, a + 1), 2, [a, a + 1]
         elif form < 0.75:
-            lots, n = "Lot %d" % a, 1
+            lots, n, want = "Lot %d" % a, 1, [a]
         else:
-            lots, n = "Lots %d - %d" % (a, a + 2), 3
-        return {"kind": kind, "text": "%s%s%s" % (txt, conn, lots), "div_prefix": pre, "nlots": n}
+            lots, n, want = "Lots %d - %d" % (a, a + 2), 3, [a, a + 1, a + 2]
+        return {"kind": kind, "text": "%s%s%s" % (txt, conn, lots), "div_prefix": pre, "nlots": n, "want_lots": want}
     if kind == "ALQ":
-        return {"kind": kind, "text": rng.choice(CHAINS)}
+        txt = rng.choice(CHAINS + CHAINS + DEEP_CHAINS)
+        return {"kind": kind, "text": txt, "chain": CHAIN_ABS[txt]}
     return {"kind": "ALL", "text": rng.choice(["ALL", "ALL", "All"])}
 
 
@@ -72,8 +103,7 @@ def mk_case(cid, kinds, seps, suppress, rng, origin="tlc"):
             "args": {"text": text, "elements": els, "suppress": bool(suppress), "acres": acres,
                      "seq": rng.choice([False, False, False, True, "bulk", "thrice", "plss_steps"]),
                      # depth settings (the same for the whole and its parts); None: the defaults
-                     "cfgx": rng.choice([None, None, None, "qq_depth.1", "qq_depth.3", "qq_depth_min.1,qq_depth_max.2",
-                                         "break_halves", "qq_depth_min.3,break_halves"])}}
+                     "cfgx": rng.choice(CFGX)}}
 
 
 def neutralised(case, what):
@@ -111,8 +141,25 @@ def records(cases, obs):
         empty = {"lots": [], "qqs": [], "lots_qqs": [], "ilots": [], "lotnums": [], "dup_lot": False, "dup_qq": False}
         recs.append({"id": c["id"], "kinds": a["kinds"], "seps": a["seps"], "suppress": a["suppress"],
                      "whole": o.get("whole") or empty,
-                     "parts": [{k: v for k, v in p.items() if k != "raw"} for p in (o.get("parts") or [])],
+                     "parts": [dict({k: v for k, v in p.items() if k not in ("raw", "pieces")}, lots_ok=bool(p.get("lots_ok", True)))
+                               for p in (o.get("parts") or [])],
                      "acres_ok": bool(o.get("acres_ok", True)), "exc": o.get("exc", "none")})
+    return recs
+
+
+def element_records(cases, obs):
+    """One spec/AliquotTrace.tla record per aliquot-chain element parsed on its own: (chain, depth settings, pieces)."""
+    recs, seen = [], set()
+    for c in cases:
+        o = obs.get(c["id"])
+        if o is None or o.get("exc", "none") != "none":
+            continue
+        dmin, dmax, bh = depth_settings(c["args"].get("cfgx"))
+        for j, (el, p) in enumerate(zip(c["args"]["elements"], o.get("parts") or [])):
+            if el["kind"] != "ALQ" or not el.get("chain") or p.get("pieces") is None:
+                continue
+            recs.append({"id": "%s#%d" % (c["id"], j), "chain": el["chain"], "dmin": dmin, "dmax": dmax, "bh": bh,
+                         "exc": "none", "pieces": p["pieces"]})
     return recs
 
 
@@ -120,6 +167,19 @@ def check(ctx, cases):
     consts = {"MaxElems": 1, "Fault": "none", "EmitCases": False}
     obs = ctx.impl_map("c06", cases)
     fails, drifts = ctx.validate("TractParseTrace", records(cases, obs), consts)
+    # "what each element yields on its own": the yield of an aliquot-chain element is judged by spec/Aliquot.tla (tiles
+    # the described area at the configured depth), so that a whole and its parts that are wrong in the same way do not
+    # vouch for each other
+    erecs = element_records(cases, obs)
+    efails, _ = ctx.validate("AliquotTrace", erecs, {"MaxLen": 1, "DMins": {1}, "DMaxs": {0}, "GridExp": 12, "Fault": "none",
+                                                     "EmitCases": False}, count=False) if erecs else ([], [])
+    ctx.element_yields = getattr(ctx, "element_yields", 0) + len(erecs)
+    already = {f[0] for f in fails}
+    for eid, clause, *_ in efails:
+        cid = eid.rsplit("#", 1)[0]
+        if cid not in already:
+            already.add(cid)
+            fails.append((cid, "element_yield_" + clause))
     by_id = {c["id"]: c for c in cases}
     for c in cases:
         if c["id"] in obs:
@@ -214,7 +274,10 @@ def run(ctx):
     ctx.rule = ("descriptions = every (element kinds, separators, suppress_lot_divs) of spec/TractParse.tla up to %d elements "
                 "(7 kinds, 3 separators)%s + seeded random sequences of %d..8 elements; each rendered with random lot "
                 "numbers 1..9 (duplicates happen), acreages, division aliquots, chains; whole and every element parsed "
-                "separately; non-trivial = distinct (text, suppress)" % (n, " (15% of length 4)" if thorough else "", n + 1))
+                "separately; every aliquot-chain element's own yield (%d of them) judged by spec/Aliquot.tla (C02Clause) under the "
+                "case's depth settings (12 settings incl. qq_depth_max x break_halves, chains of 1..4 components); "
+                "non-trivial = distinct (text, suppress)" % (n, " (15%% of length 4)" if thorough else "", n + 1,
+                                                             getattr(ctx, "element_yields", 0)))
     ctx.assumptions += ["an acreage is checked only for lots whose acreage is stated once (R3)",
                         "lots / aliquots are compared by their reported names"]
 
